@@ -11,6 +11,9 @@ CHECKS = {
  "C04": ("fault_enumeration", "Logs written by real servers are cut at enumerated byte offsets (every offset of short logs in thorough; tail commands, boundary neighbourhoods, loader-buffer boundaries and PRNG offsets in quick) and padded with zero runs; each variant is loaded by a real server and judged on: starts, repaired size == last command boundary, state == clean-cut load, later write survives a second restart.",
          "The state of a clean-cut log is taken as reference (C03 decides its correctness); independent log parser for the boundaries.",
          "runtime monitoring with fault enumeration: differential start-up on truncated/padded logs", "4/C04"),
+ "C08": ("exploration", "A verif build carries an in-process monitor that, at every reply write, compares the sending goroutine's last logged command sequence number with the flushed sequence number; workloads of 2-16 concurrently writing connections run under perturbation patterns (sleep/yield at the four legal preemption points of the pre-write path) that manufacture the flush/clear/test interleavings on demand; a hook-free second oracle kills the process at PRNG instants and requires every acknowledged token in appendonly.aof.",
+         "Ownership of a logged command by the goroutine that executes it; kill -9 keeps data handed to write(2). No fsync claim.",
+         "runtime monitoring: in-process assertion at the send hook under injected schedule perturbations + kill-9 acknowledged-token oracle", "4/C08"),
 }
 def main():
     old = json.load(open('/verif/MANIFEST.json'))
